@@ -16,12 +16,14 @@
    CheckBounds(x) is modelled for a state in which it has already been evaluated for every OutRec
    (harness/cx_owner forces that): it is [has_pts x].
 
-   RecursiveCheckOwners exists in two shapes, selected by two flags, so that the model mirrors the code both before and
-   after the repair triage/C04-owner-search.patch (the check establishes which shape the tree under test has by exact
-   comparison on every dumped state; every theorem is proved for all four flag settings):
-     own_first  = the search starts with `found = outrec->splits && CheckSplitOwner(outrec, outrec->splits)`
-     mark_owner = the loop body starts with `outrec->owner->recursive_split = outrec`
-   Both false = the code of the snapshot. *)
+   The owner search exists in several shapes, selected by three flags, so that the model mirrors the code both before
+   and after the repair triage/C04-owner-search.patch (the check establishes which shape the tree under test has by exact
+   comparison on every dumped state; every theorem is stated for the shapes it holds for):
+     own_first       RecursiveCheckOwners starts with `found = outrec->splits && CheckSplitOwner(outrec, outrec->splits)`
+     mark_chain      ... then sets `o->recursive_split = outrec` for every o in outrec's owner chain before the loop
+     guard_pointless CheckSplitOwner descends into the split list of a split without points only if that split's
+                     recursive_split is not outrec, and marks it
+   All false = the code of the snapshot. *)
 From Coq Require Import List Bool Arith Lia.
 Import ListNotations.
 
@@ -196,8 +198,9 @@ Section Search.
   Variable bcontains : nat -> nat -> bool.     (* or_a->bounds.Contains(or_b->bounds) *)
   Variable bempty : nat -> bool.               (* or_i->bounds.IsEmpty() *)
   Variable is_open : nat -> bool.
-  Variable own_first : bool.                   (* see the header: shape of RecursiveCheckOwners *)
-  Variable mark_owner : bool.
+  Variable guard_pointless : bool.             (* see the header: shape of CheckSplitOwner *)
+  Variable own_first : bool.                   (* shape of RecursiveCheckOwners *)
+  Variable mark_chain : bool.
 
   Definition check_bounds (m : omap) (x : nat) : bool := pts_of m x.
 
@@ -209,8 +212,12 @@ Section Search.
       match spl with
       | [] => Some (m, false)
       | s :: rest =>
-        (* if (!split->pts && split->splits && CheckSplitOwner(outrec, split->splits)) return true;  #942 *)
-        match (if negb (pts_of m s) then check_split_owner f m i (splits_of m s) else Some (m, false)) with
+        (* if (!split->pts && split->splits [&& split->recursive_split != outrec]) { [split->recursive_split = outrec;]
+             if (CheckSplitOwner(outrec, split->splits)) return true; }                                          #942 *)
+        match (if negb (pts_of m s) then
+                 if guard_pointless && opt_eqb (rsplit_of m s) i then Some (m, false)
+                 else check_split_owner f (if guard_pointless then set_rsplit m s (Some i) else m) i (splits_of m s)
+               else Some (m, false)) with
         | None => None
         | Some (m1, true) => Some (m1, true)
         | Some (m1, false) =>
@@ -246,8 +253,7 @@ Section Search.
       match owner_of m i with
       | None => Some m
       | Some o =>
-        let m0 := if mark_owner then set_rsplit m o (Some i) else m in
-        match check_split_owner fuel m0 i (splits_of m0 o) with
+        match check_split_owner fuel m i (splits_of m o) with
         | None => None
         | Some (m1, true) => Some m1
         | Some (m1, false) =>
@@ -257,15 +263,34 @@ Section Search.
       end
     end.
 
-  (* the owner search of RecursiveCheckOwners: (own splits first,) then the while loop *)
+  (* for (o = x; o; o = o->owner) o->recursive_split = outrec; *)
+  Fixpoint mark_owners (fuel : nat) (m : omap) (i : nat) (x : option nat) : option omap :=
+    match x with
+    | None => Some m
+    | Some o =>
+      match fuel with
+      | O => None
+      | S f => mark_owners f (set_rsplit m o (Some i)) i (owner_of m o)
+      end
+    end.
+
+  Definition marked_climb (fuel : nat) (m : omap) (i : nat) : option omap :=
+    if mark_chain then
+      match mark_owners fuel m i (owner_of m i) with
+      | None => None
+      | Some m' => climb fuel m' i
+      end
+    else climb fuel m i.
+
+  (* the owner search of RecursiveCheckOwners: (own splits first,) (mark the owner chain,) then the while loop *)
   Definition find_owner (fuel : nat) (m : omap) (i : nat) : option omap :=
     if own_first then
       match check_split_owner fuel m i (splits_of m i) with
       | None => None
       | Some (m1, true) => Some m1
-      | Some (m1, false) => climb fuel m1 i
+      | Some (m1, false) => marked_climb fuel m1 i
       end
-    else climb fuel m i.
+    else marked_climb fuel m i.
 
   (* tree under construction: (OutRec idx, parent OutRec idx or None for the root), in AddChild order *)
   Definition tree := list (nat * option nat).
